@@ -1,5 +1,6 @@
-(* Executable model of the response path of crux_http (C15), as the code is after the three fix:
-   commits (c181421 headers, 649a428 unknown status, 621d2f7 non-ASCII header):
+(* Executable model of the response path of crux_http (C15), as the code is after the fix:
+   commits (c181421 headers, 649a428 unknown status, 621d2f7 non-ASCII header, 716537a BOM,
+   d7f6296 command API through a Client):
 
      crux_http/src/protocol.rs            ResponseAsync::from_protocol   (-> [from_protocol])
      crux_http/src/response/response.rs   Response::new                  (-> [response_new])
@@ -221,17 +222,17 @@ Section Oracles.
     | _ => {| t_events := [o]; t_panicked := false |}
     end.
 
-  (* command.rs RequestBuilder::build + then_send *)
-  Definition finish_cmd (x : expectation) (r : http_result) : hres response :=
-    match r with
-    | ROk resp => hbind (from_protocol resp) (fun ra => hbind (response_new ra) (decode_exp x))
-    | RErr e => HErr e
-    end.
-  Definition run_cmd (x : expectation) (r : http_result) : trace := emit (finish_cmd x r).
-
-  (* client.rs Client::send with an empty client stack and no request middleware: the endpoint *)
+  (* client.rs Client::send with an empty client stack and no request middleware: the endpoint
+     (the general case, with middleware, is HttpResp/Mw.v) *)
   Definition client_send0 (r : http_result) : hres resp_async :=
     match r with ROk resp => from_protocol resp | RErr e => HErr e end.
+
+  (* command.rs RequestBuilder::build (since d7f6296: through a Client whose effect sender is the
+     command's context) + then_send: one event from the future's output *)
+  Definition finish_cmd (x : expectation) (r : http_result) : hres response :=
+    hbind (client_send0 r) (fun ra => hbind (response_new ra) (decode_exp x)).
+  Definition run_cmd (x : expectation) (r : http_result) : trace := emit (finish_cmd x r).
+
   (* request_builder.rs RequestBuilder::send: one update_app on either branch *)
   Definition run_cap (x : expectation) (r : http_result) : trace :=
     match client_send0 r with
